@@ -606,7 +606,9 @@ class t2listing(object):
         if pt >= 2:
             nextpt = line.find('.', pt + 1)
             if nextpt < 0 : nextpt = len(line)
-            s = line[pt + 1: nextpt - 1].lower()
+            # (only as far as the first value goes: a sign after a blank belongs
+            # to the value after it)
+            s = line[pt + 1: nextpt - 1].split(' ')[0].lower()
             exponential = s.find('e') >= 0 or s.find('+') >= 0 or s.find('-') >= 0
             if exponential:
                 c = line[pt - 2]
